@@ -89,7 +89,7 @@ def ref_step(crc, byte):
 
 
 def lengths(tier):
-    return list(range(1, 17)) if tier == "quick" else list(range(1, 65)) + [128, 253]
+    return list(range(1, 17)) if tier == "quick" else list(range(1, 65)) + [96, 128]
 
 
 def tasks(tier):
